@@ -13,7 +13,7 @@ from __future__ import annotations
 import ast
 
 from ..dataflow import all_def_values
-from ..dictflow import AD, DictInterp, consume, produce
+from ..dictflow import AD, DictInterp, Problem, consume, produce
 from ..effects import Unknown, ceval
 from ..model import AnalysisError, ClassInfo, FuncInfo, dotted, norm_stmt, unparse, walk_no_nested
 from .common import QUICK, calls_in, kwarg, parents_map
@@ -263,6 +263,16 @@ def dict_protocol(prog, res, rule: str, *, only_modify: bool = False) -> int:
             extra = {k.replace(call.args[0].id, param, 1) if k.startswith(("const:", "notconst:")) else k: v for k, v in cenv.items() if k.startswith(("const:" + call.args[0].id, "notconst:" + call.args[0].id))}
             probs = consume(prog, fd, param, ad, ci, f"{ci.name}.modify() -> from_dict", extra_env=extra)
             label = ", ".join(f"{'' if pol else 'not '}{c}" for c, pol in conds[-3:])
+            # modify keeps what it is not asked to change: the dictionary covers the keys of (one arm of) to_dict;
+            # a key that is missing silently takes from_dict's default instead of this object's value
+            try:
+                td_arms = produce(prog, td, ci)
+            except AnalysisError:
+                td_arms = []
+            if td_arms and not ad.open:
+                short = min((sorted({k_ for k_, kind_ in a_.keys.items() if kind_ != "none"} - set(ad.keys)) for _c, a_ in td_arms), key=len)
+                if short:
+                    probs = list(probs) + [Problem(call, md, f"{ci.name}.modify() hands {sorted(ad.keys)} to from_dict and leaves out {short}, which to_dict() stores: the modified copy silently takes the default for it instead of the current value", f"modify-drops-{'-'.join(short)}")]
             if probs:
                 for p in probs:
                     res.violation(rule, p.func, p.node, p.message + f" [modify path: {label}]", key_extra=f"{ci.name}-modify-{p.key}")
@@ -520,6 +530,37 @@ def rule_r7(prog, res) -> None:
     shared_rule(res, c15.rule_r7, "C15", "C15.R7", "C11.R7")
 
 
+def rule_r8(prog, res) -> None:
+    """what is written for a field is a value of the field's declared type: a to_dict that narrows (int(...) of a
+    float field, a truncating cast) stores something else than what it reads back"""
+    n = 0
+    for ci in prog.classes:
+        td = ci.methods.get("to_dict")
+        if td is None or not ci.class_ann:
+            continue
+        ann = {k: unparse(v) for k, v in ci.class_ann.items()}
+        for x in walk_no_nested(td.node):
+            items = []
+            if isinstance(x, ast.Call) and (dotted(x.func) or "") == "dict" and not x.args:
+                items = [(k.arg, k.value) for k in x.keywords if k.arg]
+            elif isinstance(x, ast.Dict):
+                items = [(k.value, v) for k, v in zip(x.keys, x.values) if isinstance(k, ast.Constant)]
+            for key, val in items:
+                if key not in ann or not isinstance(val, ast.Call) or not isinstance(val.func, ast.Name):
+                    continue
+                n += 1
+                res.touch(td)
+                cast, declared = val.func.id, ann[key]
+                if cast == "int" and declared in ("float", "np.float64", "numpy.float64"):
+                    res.violation("C11.R8", td, val, f"{ci.name}.to_dict stores the {declared} field '{key}' as int(...): the fractional part is lost in the file, the restored object differs from the stored one", key_extra=f"narrowing-{ci.name}-{key}")
+                elif cast in ("int", "float", "str", "bool") and declared.split("[")[0] in ("int", "float", "str", "bool") and cast != declared and not (cast == "float" and declared == "int"):
+                    res.violation("C11.R8", td, val, f"{ci.name}.to_dict stores the {declared} field '{key}' through {cast}(...)", key_extra=f"cast-mismatch-{ci.name}-{key}")
+                else:
+                    res.ok("C11.R8", res.site(td, key), f"field '{key}: {declared}' is written through {cast}()")
+    if n < 2:
+        raise AnalysisError(f"C11.R8: only {n} typed fields with an explicit conversion found in to_dict methods, minimum 2")
+
+
 RULES = [
     ("C11.R1", rule_r1, QUICK),
     ("C11.R2", rule_r2, QUICK),
@@ -528,4 +569,5 @@ RULES = [
     ("C11.R5", rule_r5, QUICK),
     ("C11.R6", rule_r6, QUICK),
     ("C11.R7", rule_r7, QUICK),
+    ("C11.R8", rule_r8, QUICK),
 ]
